@@ -122,10 +122,10 @@ pub(super) mod udp {
         let outbound = UdpSocket::bind(SocketAddrV4::new(Ipv4Addr::UNSPECIFIED, 0)).await?;
         let outbound_framed = UdpFramed::new(
             outbound,
-            DatagramPacketCodec::new(SessionCodec::new(
-                Context::new(Mode::Client, None, client.key, client.identity_keys),
-                AEADCipherCodec::new(client.kind),
-            )),
+            DatagramPacketCodec::new(
+                SessionCodec::new(Context::new(Mode::Client, None, client.key, client.identity_keys), AEADCipherCodec::new(client.kind)),
+                client.kind,
+            ),
         );
         Ok(outbound_framed)
     }
@@ -146,13 +146,14 @@ pub(super) mod udp {
 
     pub struct DatagramPacketCodec<'a, const N: usize> {
         codec: SessionCodec<'a, N>,
+        kind: CipherKind,
         session: Session<N>,
         filter: PacketWindowFilter,
     }
 
     impl<const N: usize> DatagramPacketCodec<'_, N> {
-        pub fn new(codec: SessionCodec<N>) -> DatagramPacketCodec<'_, N> {
-            DatagramPacketCodec { codec, session: Session::from(Mode::Client), filter: PacketWindowFilter::default() }
+        pub fn new(codec: SessionCodec<N>, kind: CipherKind) -> DatagramPacketCodec<'_, N> {
+            DatagramPacketCodec { codec, kind, session: Session::from(Mode::Client), filter: PacketWindowFilter::default() }
         }
     }
 
@@ -187,8 +188,8 @@ pub(super) mod udp {
             } else {
                 match self.codec.decode(src)? {
                     Some((content, addr, session)) => {
-                        // a duplicate or stale packet is dropped, the session goes on
-                        if !self.filter.validate_packet_id(session.packet_id, u64::MAX) {
+                        // only shadowsocks 2022 packets carry a packet id; a duplicate or stale one is dropped, the session goes on
+                        if self.kind.is_aead_2022() && !self.filter.validate_packet_id(session.packet_id, u64::MAX) {
                             debug!("[udp] drop packet, packet_id out of window; session={}", session);
                             return Ok(None);
                         }
